@@ -133,6 +133,20 @@ type EvMerge struct {
 	FLen   int    `json:"flen"`
 }
 
+type DvWalkVisit struct {
+	Sid   int    `json:"sid"`
+	D     int    `json:"d"`
+	Reuse bool   `json:"reuse"`
+	R     []ODvT `json:"r"`
+}
+
+type EvDvWalk struct {
+	Ev     string        `json:"ev"`
+	Fs     []B           `json:"fs"`
+	Visits []DvWalkVisit `json:"visits"`
+	Err    string        `json:"err"`
+}
+
 type EvClose struct {
 	Ev  string `json:"ev"`
 	Sid int    `json:"sid"`
@@ -583,6 +597,80 @@ func (l *Life) Close(h *hseg) {
 	delete(l.segs, h.sid)
 }
 
+// DvWalk visits doc values of random documents of the live segments in random order with one
+// visit state that is reused (also across segments) for the same field list.
+func (l *Life) DvWalk(n int) {
+	live := l.live()
+	if len(live) == 0 {
+		return
+	}
+	u := newUniverse()
+	for _, h := range live {
+		u.merge(h.uni)
+	}
+	fs := append(sortedKeys(u.fields), "absent\x01field")
+	l.r.Shuffle(len(fs), func(i, j int) { fs[i], fs[j] = fs[j], fs[i] })
+	if len(fs) > 3 && l.r.Intn(2) == 0 {
+		fs = fs[:2+l.r.Intn(len(fs)-2)]
+	}
+	var plan []DvWalkVisit
+	cur := live[l.r.Intn(len(live))]
+	for i := 0; i < n; i++ {
+		if l.r.Intn(4) == 0 {
+			cur = live[l.r.Intn(len(live))]
+		}
+		cnt := int(cur.seg.Count())
+		if cnt == 0 {
+			cur = live[l.r.Intn(len(live))]
+			continue
+		}
+		d := l.r.Intn(cnt)
+		if l.r.Intn(3) == 0 && len(plan) > 0 {
+			// stay near the previous document (same or neighbouring chunk)
+			d = (plan[len(plan)-1].D + l.r.Intn(5)) % cnt
+		}
+		plan = append(plan, DvWalkVisit{Sid: cur.sid, D: d, Reuse: l.r.Intn(8) != 0})
+	}
+	l.DvWalkScript(fs, plan)
+}
+
+// DvWalkScript executes the given visits (also used to re-run a recorded event).
+func (l *Life) DvWalkScript(fs []string, plan []DvWalkVisit) {
+	ev := EvDvWalk{Ev: "dvwalk", Fs: bs(fs), Visits: []DvWalkVisit{}}
+	var st segment.DocVisitState
+	func() {
+		defer func() {
+			if x := recover(); x != nil {
+				ev.Err = fmt.Sprintf("panic: %v", x)
+			}
+		}()
+		for _, pv := range plan {
+			h := l.segs[pv.Sid]
+			if h == nil || h.closed {
+				continue
+			}
+			v := DvWalkVisit{Sid: pv.Sid, D: pv.D, Reuse: pv.Reuse, R: []ODvT{}}
+			if !v.Reuse {
+				st = nil
+			}
+			dvv, ok := h.seg.(segment.DocValueVisitable)
+			if !ok {
+				continue
+			}
+			var e error
+			st, e = dvv.VisitDocValues(uint64(v.D), fs, func(field string, term []byte) {
+				v.R = append(v.R, ODvT{F: B(field), T: append(B{}, term...)})
+			}, st)
+			if e != nil {
+				ev.Err = e.Error()
+				return
+			}
+			ev.Visits = append(ev.Visits, v)
+		}
+	}()
+	l.tr.Emit(ev)
+}
+
 func (l *Life) live() []*hseg {
 	r := []*hseg{}
 	for _, s := range l.segs {
@@ -635,7 +723,11 @@ func (l *Life) RandomScenario(p *GenProfile, steps int, tag string) {
 	idBase := 0
 	for s := 0; s < steps; s++ {
 		live := l.live()
-		op := l.r.Intn(10)
+		op := l.r.Intn(12)
+		if op >= 10 {
+			l.DvWalk(6 + l.r.Intn(40))
+			continue
+		}
 		switch {
 		case len(live) == 0 || (op < 4 && len(live) < 5):
 			base := idBase
